@@ -617,8 +617,19 @@ Unmodelled(a) == ("obo" \in DOMAIN a /\ a.obo # "") \/ ("t" \in DOMAIN a /\ a.t 
 Inconsistent(S, a) == "t" \in DOMAIN a /\ a.t \in Topics /\ ~S.cache[a.t].loaded
                       /\ \E x \in Sessions : a.t \in M(S.sess[x].subs)
 DeadSession(S, a) == "s" \in DOMAIN a /\ a.s \in Sessions /\ ~S.sess[a.s].live /\ a.a # "Connect"
+\* Topic.handleMeta: a {get}/{set}/{del} from a session attached as channel reader but addressed grpXXX (or attached as member and
+\* addressed chnXXX) is answered 404 and does nothing (a reader must not be served as a member); the owner's {del topic} is decided
+\* by the hub before the topic sees it
+AddrMismatch(S, a) ==
+  /\ a.a \in {"SetSelf", "SetOther", "DelSub", "SetDesc", "DelMsg", "Get", "DelTopic"}
+  /\ "chan" \in DOMAIN a /\ "s" \in DOMAIN a /\ "t" \in DOMAIN a /\ a.t \in Topics /\ a.s \in Sessions \ RootSessions
+  /\ ~("obo" \in DOMAIN a /\ a.obo # "")
+  /\ S.cache[a.t].loaded
+  /\ \E x \in AttOf(S.cache[a.t]) : x.s = a.s /\ x.chan # a.chan
+  /\ ~(a.a = "DelTopic" /\ S.cache[a.t].owner = SessUser[a.s])
 Step(S, a) ==
   CASE DeadSession(S, a) -> Reply(S, 0)              \* the harness does not send requests on a closed connection
+    [] AddrMismatch(S, a) -> Reply(S, 404)
     [] Unmodelled(a) \/ Inconsistent(S, a) -> Reply(S, -1)
     [] a.a = "NewGrp"     -> NewGrpStep(S, a)
     [] a.a = "Sub"        -> SubStep(S, a)
